@@ -100,6 +100,11 @@ def _candidates(rng, p):
                 ("in", i, "hash256_preimages", {hashlib.sha256(hashlib.sha256(pre).digest()).digest(): pre}),
                 ("in", i, "taproot_merkle_root", bytes(rng.getrandbits(8) for _ in range(32)))]
     for i in range(len(p.outputs)):
+        if p.version == 2 and rng.random() < 0.5:
+            from spec.ec_ref import SECP256K1 as C
+            from spec.ec_ref import sec_compressed
+            info = sec_compressed(C.mul(rng.randrange(2, 99), C.G)) + sec_compressed(C.mul(rng.randrange(2, 99), C.G))
+            out += [("out", i, "sp_v0_info", info), ("out", i, "sp_v0_label", rng.choice([0, 0, 1, 7]))]
         out += [("out", i, "unknown", {b"\xfc" + bytes([rng.getrandbits(8)]): b"x"}),
                 ("out", i, "redeem_script", b"\x52"),
                 ("out", i, "witness_script", b"\x53")]
@@ -127,6 +132,10 @@ def _gen_combine(rng):
         if rng.random() < 0.7:
             q = copy.deepcopy(base)
             try:
+                if a[2] == "sp_v0_label":
+                    for b in kept:
+                        if b[2] == "sp_v0_info" and b[1] == a[1]:
+                            _apply(q, b)
                 _apply(q, a)
                 q.assert_valid()
                 Psbt.parse(q.serialize())
@@ -136,6 +145,12 @@ def _gen_combine(rng):
     k = rng.choice([1, 2, 3, 4])
     copies = [copy.deepcopy(base) for _ in range(k)]
     for a in kept:
+        if a[2] == "sp_v0_info":
+            for c in copies:
+                _apply(c, a)
+            continue
+        if a[2] == "sp_v0_label" and not any(b[2] == "sp_v0_info" and b[1] == a[1] for b in kept):
+            continue
         owners = rng.sample(range(k), rng.choice([1, 1, min(2, k)]))
         for o in owners:
             _apply(copies[o], a)
@@ -156,7 +171,8 @@ def _has(p, a):
           rule="PSBT v0/v2 built from random transactions; unknown fields, sighash types (0 included), scripts, preimages, lock-time fields distributed over 1..4 copies")
 class CombineBounded:
     def post_lossless(psbts, _assignments, result):
-        return all(_has(result, a) for a in _assignments)
+        held = [a for a in _assignments if any(_has(p, a) for p in psbts)]
+        return all(_has(result, a) for a in held)
 
     def post_order_and_grouping(psbts, result):
         rev = combine(list(reversed(psbts)))
@@ -213,6 +229,10 @@ def _gen_convert(rng):
 
 @contract("btclib.psbt.psbt.Psbt.to_v0", gen=_gen_convert, props="C11", n_quick=120, n_thorough=2000)
 class ToV0Bounded:
+    def raises_BTClibValueError(self):
+        # a version 0 psbt cannot carry a silent-payment output (BIP375 fields are v2 only)
+        return any(o.sp_v0_info for o in self.outputs)
+
     def post_same_tx_fresh_object(self, self0, result):
         before = self0.serialize()
         same_tx = result.tx.serialize(include_witness=False) == self0.tx.serialize(include_witness=False)
